@@ -284,6 +284,7 @@ enum Outcome {
 
 fn run_one<P: Property>(p: &P, case: &P::Case, open_known: &BTreeSet<String>, strict: bool) -> Outcome {
     let mut ctx = Ctx { open_known: open_known.clone(), strict, ..Default::default() };
+    crate::lp::set_box_center(None);
     let r = catch_unwind(AssertUnwindSafe(|| p.run(case, &mut ctx)));
     match r {
         Ok(Ok(())) => Outcome::Pass(ctx),
